@@ -167,16 +167,13 @@ FunctionKey::execute(
 
                     DOMServices::getNodeData(*theNodeSet.item(i), executionContext, ref);
 
-                    if (0 != ref.length())
-                    {
-                        getNodeSet(
-                            executionContext,
-                            context,
-                            keyname,
-                            ref,
-                            locator,
-                            *theNodeRefList.get());
-                    }
+                    getNodeSet(
+                        executionContext,
+                        context,
+                        keyname,
+                        ref,
+                        locator,
+                        *theNodeRefList.get());
 
                     ref.clear();
                 }
